@@ -36,6 +36,21 @@ def save_meta(mid, m):
 def cmd_import(prop, letter):
     src = "/tmp/mut/%s.out" % prop
     mid = "%s-%s" % (prop, letter)
+    if letter.startswith("G"):
+        # second generation: /tmp/mut/<Gn>.out/<Cxx>.diff, demo_<Cxx>_test.go
+        src = "/tmp/mut/%s.out" % letter
+        mid = "%s-%s" % (prop, letter)
+        d = os.path.join(SEEDED, mid)
+        os.makedirs(d, exist_ok=True)
+        shutil.copy(os.path.join(src, "%s.diff" % prop), os.path.join(d, "patch.diff"))
+        shutil.copy(os.path.join(src, "demo_%s_test.go" % prop), os.path.join(d, "demo_test.go"))
+        if os.path.exists(os.path.join(src, "notes.md")):
+            shutil.copy(os.path.join(src, "notes.md"), os.path.join(d, "notes.md"))
+        m = load_meta(mid)
+        m.update({"id": mid, "property": prop, "source": "independent sub-agent (second generation: asked for conjunctions of conditions) given only property texts and a scratch worktree"})
+        save_meta(mid, m)
+        print("imported", mid)
+        return
     d = os.path.join(SEEDED, mid)
     os.makedirs(d, exist_ok=True)
     shutil.copy(os.path.join(src, "%s.diff" % letter), os.path.join(d, "patch.diff"))
